@@ -244,7 +244,7 @@ def _comb_oracle(args, obs):
 
 def c05_combinators(ta: Tuple[int, int, int], na: int, tb: Tuple[int, int, int], nb: int) -> bool:
     """
-    pre: pinned(na=na, nb=nb, a0=ta[0], b0=tb[0])
+    pre: pinned(na=na, nb=nb, a0=ta[0], b0=tb[0], a1=ta[1])
     pre: 1 <= na <= 3 and 1 <= nb <= 3
     pre: all(0 <= ta[i] < 8 and (i < na or ta[i] == 0) for i in range(3))
     pre: all(0 <= tb[i] < 8 and (i < nb or tb[i] == 0) for i in range(3))
@@ -303,8 +303,10 @@ def _sh_wrapped(tier):
 
 def _sh_comb(tier):
     if tier == "quick":
-        return product_pins(na=[1, 3], nb=[1, 3], a0=[0, 4], b0=[1])
-    return product_pins(na=[1, 2, 3], nb=[1, 2, 3], a0=[0, 1, 4], b0=[0, 1, 4])
+        return product_pins(na=[1], nb=[1, 3], a0=[0], b0=[1]) + \
+            product_pins(na=[3], nb=[1, 3], a0=[0, 4], b0=[1], a1=list(range(8)))
+    return product_pins(na=[1, 2], nb=[1, 2, 3], a0=[0, 1, 4], b0=[0, 1, 4]) + \
+        product_pins(na=[3], nb=[1, 2, 3], a0=[0, 1, 4], b0=[0, 1, 4], a1=list(range(8)))
 
 
 FUNCS = ["Regex.__init__", "RegexReader.*", "_pre_process_regex", "_get_regex_componants", "to_node",
